@@ -1,5 +1,5 @@
-(* C11 (numeric layer) -- the derived integer values of IPv4Obj / IPv6Obj: network = addr AND netmask, netmask/hostmask complement, broadcast/last = network + hostmask, bounds, numhosts; gen_* are regenerated from /repo on every run. The textual layer (accepted spellings, rejection of non-addresses) is decided by the three-way differential tie against Python's ipaddress (see design/C11.md). *)
-From Coq Require Import ZArith. Require Import CCP.Lib.Res CCP.Model.IPRef CCP.gen.GenIP CCP.Proofs.C11Proofs. Open Scope Z_scope.
+(* C11 -- IPv4/IPv6 objects agree with the standard library.  Numeric layer: the derived integer values of IPv4Obj / IPv6Obj (network = addr AND netmask, netmask/hostmask complement, broadcast/last = network + hostmask, bounds, numhosts); gen_* are regenerated from /repo on every run.  Textual layer, IPv4: v4_parse (Model/IPText.v) mirrors the constructor's regex alternatives and ipaddress's validation; every accepted spelling (render4 f a p with any surrounding blanks) parses to (a, p), and whatever parses is in range.  The IPv6 textual layer is decided by the three-way differential tie against Python's ipaddress (design/C11.md). *)
+From Coq Require Import ZArith List NArith. Require Import CCP.Lib.Res CCP.Lib.PyStr CCP.Model.IPRef CCP.Model.IPText CCP.gen.GenIP CCP.Proofs.C11Proofs CCP.Proofs.IPTextProofs. Import ListNotations. Open Scope Z_scope.
 
 Theorem C11_v6_network_is_and :
   forall o, wf 128 o -> netw 128 o = Z.land (addr o) (netmask 128 o).
@@ -70,3 +70,13 @@ Theorem C11_consts_ok :
   c_IPV4_MAXINT = 2 ^ 32 - 1 /\ c_IPV6_MAXINT = 2 ^ 128 - 1 /\ c_IPV4_MAX_PREFIXLEN = 32 /\ c_IPV6_MAX_PREFIXLEN = 128.
 Proof. exact consts_ok. Qed.
 Print Assumptions C11_consts_ok.
+
+Theorem C11_v4_parse_render :
+  forall f a p pre post, (0 <= a < 2 ^ 32)%Z -> (0 <= p <= 32)%Z -> form_ok f p -> forallb is_space pre = true -> forallb is_space post = true -> v4_parse (pre ++ render4 f a p ++ post) = Some (a, p).
+Proof. exact v4_parse_render. Qed.
+Print Assumptions C11_v4_parse_render.
+
+Theorem C11_v4_parse_sound :
+  forall s a p, v4_parse s = Some (a, p) -> (0 <= a < 2 ^ 32)%Z /\ (0 <= p <= 32)%Z.
+Proof. exact v4_parse_sound. Qed.
+Print Assumptions C11_v4_parse_sound.
